@@ -572,11 +572,17 @@ def run_stream(stream, cases, driver, model_ok, stats):
             # the implementation answered; the stream is recorded as a broken correspondence
             outs = []
             disagreements.append({"stream": stream.name, "case": cases[idx[0]], "real": reals[idx[0]], "model": f"<{e}>"})
+        canon_hangs = 0
         for i, o in zip(idx, outs):
             try:
-                models[i] = stream.canon_model(cases[i], o)
-            except Exception as e:  # noqa: BLE001
+                with watchdog():
+                    models[i] = stream.canon_model(cases[i], o)
+            except (Exception, HangTimeout) as e:  # noqa: BLE001
                 harness_failed(i, e, "the harness canonicalised the model's answer")
+                if isinstance(e, HangTimeout):
+                    canon_hangs += 1
+                    if canon_hangs >= 3:
+                        break
     seen = stats.setdefault("seen", set())
     oracle_hangs = 0
     for i, c in enumerate(cases):
